@@ -584,9 +584,10 @@ spif_mbuff_rindex(spif_mbuff_t self, spif_uint8_t c)
     spif_byteptr_t tmp;
 
     ASSERT_RVAL(!SPIF_MBUFF_ISNULL(self), ((spif_memidx_t) -1));
-    for (tmp = self->buff + self->len - 1; (*tmp != c) && (tmp >= self->buff); tmp--);
+    REQUIRE_RVAL(self->len > 0, (spif_memidx_t) 0);
+    for (tmp = self->buff + self->len - 1; (tmp > self->buff) && (*tmp != c); tmp--);
 
-    if ((tmp == self->buff) && (*tmp != c)) {
+    if (*tmp != c) {
         return (spif_memidx_t) (self->len);
     } else {
         return (spif_memidx_t) ((spif_long_t) tmp - (spif_long_t) self->buff);
